@@ -10,6 +10,7 @@ package deviceshare
 // delivered pod object says). It never calls into the code under check.
 
 import (
+	"context"
 	"encoding/json"
 	"fmt"
 	"os"
@@ -24,12 +25,14 @@ import (
 	"k8s.io/apimachinery/pkg/api/resource"
 	metav1 "k8s.io/apimachinery/pkg/apis/meta/v1"
 	"k8s.io/apimachinery/pkg/types"
+	"k8s.io/kubernetes/pkg/scheduler/framework"
 	"k8s.io/utils/ptr"
 
 	apiext "github.com/koordinator-sh/koordinator/apis/extension"
 	schedulingv1alpha1 "github.com/koordinator-sh/koordinator/apis/scheduling/v1alpha1"
 	schedulerconfig "github.com/koordinator-sh/koordinator/pkg/scheduler/apis/config"
 	v1schedulerconfig "github.com/koordinator-sh/koordinator/pkg/scheduler/apis/config/v1"
+	"github.com/koordinator-sh/koordinator/pkg/scheduler/frameworkext"
 	"github.com/koordinator-sh/koordinator/pkg/scheduler/frameworkext/schedulingphase"
 	"github.com/koordinator-sh/koordinator/pkg/zzverif/mc"
 )
@@ -1204,8 +1207,53 @@ func c07Dir(got, want int64) string {
 	return "under"
 }
 
+// c07QueryHandle is what Plugin.RemovePod asks of the framework handle; no reservation is involved in these universes.
+type c07QueryHandle struct{ frameworkext.ExtendedHandle }
+
+func (c07QueryHandle) GetReservationCache() frameworkext.ReservationCache         { return nil }
+func (c07QueryHandle) GetReservationNominator() frameworkext.ReservationNominator { return nil }
+
+// dryRunQueries runs the preemption dry-run's read path, the real Plugin.RemovePod, for every pod name in every order
+// on a fresh cycle state each (what SelectVictimsOnNode does with the potential victims of a node). It is a query: it
+// runs under the node's read lock and must leave the ledger as it is - the state clauses judged after it say so
+// (an accumulator that aliases the ledger's own per-pod lists rewrites a live pod's record: seed C07-6).
+func (s *c07Sys) dryRunQueries() (panicS string) {
+	pl := &Plugin{handle: c07QueryHandle{}, nodeDeviceCache: s.cache}
+	ni := framework.NewNodeInfo()
+	ni.SetNode(s.node)
+	n := len(s.pods)
+	order := make([]int, n)
+	for i := range order {
+		order[i] = i
+	}
+	var rec func(k int)
+	rec = func(k int) {
+		if k == n {
+			cs := framework.NewCycleState()
+			cs.Write(stateKey, &preFilterState{
+				preemptibleDevices: map[string]map[schedulingv1alpha1.DeviceType]deviceResources{},
+				preemptibleInRRs:   map[string]map[types.UID]map[schedulingv1alpha1.DeviceType]deviceResources{}})
+			for _, slot := range order {
+				pi, _ := framework.NewPodInfo(s.podObj(slot, nil, true, "", corev1.PodRunning))
+				pl.RemovePod(context.TODO(), cs, s.podObj(0, nil, false, "", corev1.PodPending), pi, ni)
+			}
+			s.count("preemption_dry_runs", 1)
+			return
+		}
+		for i := k; i < n; i++ {
+			order[k], order[i] = order[i], order[k]
+			rec(k + 1)
+			order[k], order[i] = order[i], order[k]
+		}
+	}
+	return mc.Guard(func() { rec(0) })
+}
+
 func (s *c07Sys) Invariants() []mc.Violation {
 	var viol []mc.Violation
+	if ps := s.dryRunQueries(); ps != "" {
+		viol = append(viol, mc.Violation{Key: s.vkey("state|preemption-dry-run-panics"), What: ps})
+	}
 	sum, ok := s.cache.getNodeDeviceSummary(c07Node)
 	if !ok {
 		return []mc.Violation{{Key: s.vkey("state|node-device-missing"), What: "the node's device ledger vanished"}}
